@@ -45,12 +45,19 @@ def correspond(ctx):
 
 
 def gen_seg(rng):
-    fam = rng.choice(['random', 'random', 'line', 'cusp', 'loop', 'retrace', 'smooth', 'quad', 'int', 'smallint', 'closedseg'])
+    fam = rng.choice(['random', 'random', 'line', 'cusp', 'loop', 'retrace', 'smooth', 'quad', 'int', 'smallint', 'closedseg', 'uniform-moved'])
     r = lambda: P(rng.uniform(-300, 300), rng.uniform(-300, 300))
     if fam == 'line': return fam, Line(r(), r())
     if fam == 'quad': return fam, QuadraticBezier(r(), r(), r())
     if fam == 'int': return fam, gen.segment(rng, order=rng.choice([3, 4]), fam='int')[0]
     if fam == 'smallint': return fam, gen.segment(rng, order=rng.choice([3, 4]), fam='smallint')[0]
+    if fam == 'uniform-moved':
+        a, b = r(), r()
+        s = QuadraticBezier(a, a.lerp(b, 0.5), b) if rng.random() < 0.6 else CubicBezier(a, a.lerp(b, 1 / 3.0), a.lerp(b, 2 / 3.0), b)
+        if rng.random() < 0.7: s = s.rotated(r(), rng.uniform(-3, 3))
+        if rng.random() < 0.7: s = s.translated(P(rng.uniform(-1000, 1000), rng.uniform(-1000, 1000)))
+        if rng.random() < 0.3: s = s.splitAtTime(rng.uniform(0.2, 0.8))[rng.randrange(2)]
+        return fam, s
     if fam == 'closedseg':
         a = r(); return fam, CubicBezier(a, r(), r(), a)
     if fam == 'cusp':
